@@ -27,6 +27,9 @@ enum Cond {
     Not(Box<Cond>),
     And(Box<Cond>, Box<Cond>),
     Or(Box<Cond>, Box<Cond>),
+    TypeF(usize, usize), // TAGS[t] == type(x)
+    EqNilF(usize),       // nil == x
+    NeNilF(usize),       // nil ~= x
 }
 
 #[derive(Clone, Debug, PartialEq)]
@@ -39,6 +42,8 @@ enum Stmt {
     Repeat(Vec<Stmt>, Cond),
     For(i64, i64, Vec<Stmt>),
     BreakIf(Cond, Vec<Stmt>),
+    Assert(Cond),                    // assert(c)
+    ReturnIf(bool, Cond, Vec<Stmt>), // if c then b; return end  /  if c then b; error('e') end
 }
 
 #[derive(Clone, Debug, PartialEq)]
@@ -55,6 +60,7 @@ fn cond_json(c: &Cond) -> Value {
         Cond::Type(x, t) => json!(["type", x, t]), Cond::EqNil(x) => json!(["eqnil", x]), Cond::NeNil(x) => json!(["nenil", x]),
         Cond::Var(x) => json!(["var", x]), Cond::Opq(k) => json!(["opq", k]), Cond::Not(a) => json!(["not", cond_json(a)]),
         Cond::And(a, b) => json!(["and", cond_json(a), cond_json(b)]), Cond::Or(a, b) => json!(["or", cond_json(a), cond_json(b)]),
+        Cond::TypeF(x, t) => json!(["typef", x, t]), Cond::EqNilF(x) => json!(["eqnilf", x]), Cond::NeNilF(x) => json!(["nenilf", x]),
     }
 }
 fn block_json(b: &[Stmt]) -> Value { Value::Array(b.iter().map(stmt_json).collect()) }
@@ -69,6 +75,8 @@ fn stmt_json(s: &Stmt) -> Value {
         Stmt::Repeat(b, c) => json!(["repeat", block_json(b), cond_json(c)]),
         Stmt::For(a, z, b) => json!(["for", a, z, block_json(b)]),
         Stmt::BreakIf(c, b) => json!(["breakif", cond_json(c), block_json(b)]),
+        Stmt::Assert(c) => json!(["assert", cond_json(c)]),
+        Stmt::ReturnIf(e, c, b) => json!(["returnif", e, cond_json(c), block_json(b)]),
     }
 }
 fn prog_json(p: &Prog) -> Value { json!({"decls": p.decls.iter().map(lit_json).collect::<Vec<_>>(), "body": block_json(&p.body)}) }
@@ -82,6 +90,7 @@ fn lit_from(v: &Value) -> Lit {
 fn cond_from(v: &Value) -> Cond {
     let u = |i: usize| v[i].as_u64().unwrap() as usize;
     match v[0].as_str().unwrap() {
+        "typef" => Cond::TypeF(u(1), u(2)), "eqnilf" => Cond::EqNilF(u(1)), "nenilf" => Cond::NeNilF(u(1)),
         "type" => Cond::Type(u(1), u(2)), "eqnil" => Cond::EqNil(u(1)), "nenil" => Cond::NeNil(u(1)), "var" => Cond::Var(u(1)),
         "opq" => Cond::Opq(u(1)), "not" => Cond::Not(Box::new(cond_from(&v[1]))),
         "and" => Cond::And(Box::new(cond_from(&v[1])), Box::new(cond_from(&v[2]))),
@@ -99,6 +108,8 @@ fn stmt_from(v: &Value) -> Stmt {
         "whiletrue" => Stmt::WhileTrue(block_from(&v[1])),
         "repeat" => Stmt::Repeat(block_from(&v[1]), cond_from(&v[2])),
         "for" => Stmt::For(v[1].as_i64().unwrap(), v[2].as_i64().unwrap(), block_from(&v[3])),
+        "assert" => Stmt::Assert(cond_from(&v[1])),
+        "returnif" => Stmt::ReturnIf(v[1].as_bool().unwrap(), cond_from(&v[2]), block_from(&v[3])),
         _ => Stmt::BreakIf(cond_from(&v[1]), block_from(&v[2])),
     }
 }
@@ -121,6 +132,9 @@ fn p_cond(c: &Cond) -> String {
         Cond::Not(a) => format!("not ({})", p_cond(a)),
         Cond::And(a, b) => format!("({}) and ({})", p_cond(a), p_cond(b)),
         Cond::Or(a, b) => format!("({}) or ({})", p_cond(a), p_cond(b)),
+        Cond::TypeF(x, t) => format!("\"{}\" == type(x{})", TAGS[*t], x),
+        Cond::EqNilF(x) => format!("nil == x{}", x),
+        Cond::NeNilF(x) => format!("nil ~= x{}", x),
     }
 }
 fn p_block(b: &[Stmt], out: &mut String) { for s in b { p_stmt(s, out); } }
@@ -141,6 +155,8 @@ fn p_stmt(s: &Stmt, out: &mut String) {
         Stmt::Repeat(b, c) => { out.push_str("repeat\n"); p_block(b, out); out.push_str(&format!("until {}\n", p_cond(c))); }
         Stmt::For(a, z, b) => { out.push_str(&format!("for i = {}, {} do\n", a, z)); p_block(b, out); out.push_str("end\n"); }
         Stmt::BreakIf(c, b) => { out.push_str(&format!("if {} then\n", p_cond(c))); p_block(b, out); out.push_str("break\nend\n"); }
+        Stmt::Assert(c) => out.push_str(&format!("assert({})\n", p_cond(c))),
+        Stmt::ReturnIf(e, c, b) => { out.push_str(&format!("if {} then\n", p_cond(c))); p_block(b, out); out.push_str(if *e { "error('e')\nend\n" } else { "return\nend\n" }); }
     }
 }
 fn print_prog(p: &Prog) -> String {
@@ -164,9 +180,9 @@ impl<'a> Gen<'a> {
     fn atom(&mut self) -> Cond {
         let x = self.var();
         match self.rng.below(10) {
-            0 | 1 | 2 => Cond::Type(x, self.rng.below(6)),
-            3 => Cond::EqNil(x),
-            4 => Cond::NeNil(x),
+            0 | 1 | 2 => { let t = self.rng.below(6); if self.rng.chance(1, 4) { Cond::TypeF(x, t) } else { Cond::Type(x, t) } }
+            3 => if self.rng.chance(1, 3) { Cond::EqNilF(x) } else { Cond::EqNil(x) },
+            4 => if self.rng.chance(1, 3) { Cond::NeNilF(x) } else { Cond::NeNil(x) },
             5 | 6 => Cond::Var(x),
             _ => { if self.nopq < self.maxopq { self.nopq += 1; Cond::Opq(self.nopq - 1) } else { Cond::Var(x) } }
         }
@@ -196,6 +212,13 @@ impl<'a> Gen<'a> {
             0 | 1 | 2 => { let x = self.var(); let l = self.lit(); Stmt::Assign(x, l) }
             3 | 4 | 5 => self.probe(),
             6 | 7 | 8 | 9 => {
+                if self.rng.chance(1, 8) { let c = self.cond(1); return Stmt::Assert(c); }
+                if self.rng.chance(1, 8) {
+                    let c = self.cond(1);
+                    let b = if self.rng.chance(1, 2) { Vec::new() } else { self.block(depth - 1, in_loop, 2) };
+                    let e = self.rng.chance(1, 2);
+                    return Stmt::ReturnIf(e, c, b);
+                }
                 if in_loop && self.rng.chance(1, 3) {
                     let c = self.cond(1);
                     let b = if self.rng.chance(1, 2) { Vec::new() } else { self.block(depth - 1, in_loop, 2) };
@@ -231,8 +254,8 @@ fn renumber_lits(b: &mut Vec<Stmt>, nl: &mut usize) {
         match s {
             Stmt::Assign(_, l) => renum_lit(l, nl),
             Stmt::If(arms, els) => { for (_, bb) in arms.iter_mut() { renumber_lits(bb, nl); } if let Some(bb) = els { renumber_lits(bb, nl); } }
-            Stmt::While(_, bb) | Stmt::WhileTrue(bb) | Stmt::Repeat(bb, _) | Stmt::For(_, _, bb) | Stmt::BreakIf(_, bb) => renumber_lits(bb, nl),
-            Stmt::Probe(..) => {}
+            Stmt::While(_, bb) | Stmt::WhileTrue(bb) | Stmt::Repeat(bb, _) | Stmt::For(_, _, bb) | Stmt::BreakIf(_, bb) | Stmt::ReturnIf(_, _, bb) => renumber_lits(bb, nl),
+            Stmt::Probe(..) | Stmt::Assert(..) => {}
         }
     }
 }
@@ -241,8 +264,8 @@ fn renumber(b: &mut Vec<Stmt>, next: &mut usize) {
         match s {
             Stmt::Probe(id, _) => { *id = *next; *next += 1; }
             Stmt::If(arms, els) => { for (_, bb) in arms.iter_mut() { renumber(bb, next); } if let Some(bb) = els { renumber(bb, next); } }
-            Stmt::While(_, bb) | Stmt::WhileTrue(bb) | Stmt::Repeat(bb, _) | Stmt::For(_, _, bb) | Stmt::BreakIf(_, bb) => renumber(bb, next),
-            Stmt::Assign(..) => {}
+            Stmt::While(_, bb) | Stmt::WhileTrue(bb) | Stmt::Repeat(bb, _) | Stmt::For(_, _, bb) | Stmt::BreakIf(_, bb) | Stmt::ReturnIf(_, _, bb) => renumber(bb, next),
+            Stmt::Assign(..) | Stmt::Assert(..) => {}
         }
     }
 }
@@ -334,13 +357,13 @@ fn tagidx_of_val(v: u8) -> usize { [0, 1, 1, 2, 3, 4, 5][v as usize] }
 
 struct St { env: Vec<u8>, oracle: Vec<bool>, pos: usize, trace: Vec<(usize, u8)> }
 #[derive(PartialEq)]
-enum Out { Normal, Break, Fuel }
+enum Out { Normal, Break, Fuel, Stop }
 
 fn eval(c: &Cond, st: &mut St) -> bool {
     match c {
-        Cond::Type(x, t) => tagidx_of_val(st.env[*x]) == *t,
-        Cond::EqNil(x) => st.env[*x] == 0,
-        Cond::NeNil(x) => st.env[*x] != 0,
+        Cond::Type(x, t) | Cond::TypeF(x, t) => tagidx_of_val(st.env[*x]) == *t,
+        Cond::EqNil(x) | Cond::EqNilF(x) => st.env[*x] == 0,
+        Cond::NeNil(x) | Cond::NeNilF(x) => st.env[*x] != 0,
         Cond::Var(x) => st.env[*x] >= 2,
         Cond::Opq(_) => { let b = st.oracle.get(st.pos).copied().unwrap_or(false); st.pos += 1; b }
         Cond::Not(a) => !eval(a, st),
@@ -361,10 +384,12 @@ fn exec_stmt(s: &Stmt, fuel: usize, st: &mut St) -> Out {
             if let Some(b) = els { exec_block(b, fuel, st) } else { Out::Normal }
         }
         Stmt::BreakIf(c, b) => { if eval(c, st) { match exec_block(b, fuel, st) { Out::Normal => Out::Break, o => o } } else { Out::Normal } }
-        Stmt::While(c, b) => { for _ in 0..fuel { if !eval(c, st) { return Out::Normal; } match exec_block(b, fuel, st) { Out::Normal => {}, Out::Break => return Out::Normal, Out::Fuel => return Out::Fuel } } Out::Fuel }
-        Stmt::WhileTrue(b) => { for _ in 0..fuel { match exec_block(b, fuel, st) { Out::Normal => {}, Out::Break => return Out::Normal, Out::Fuel => return Out::Fuel } } Out::Fuel }
-        Stmt::Repeat(b, c) => { for _ in 0..fuel { match exec_block(b, fuel, st) { Out::Normal => {}, Out::Break => return Out::Normal, Out::Fuel => return Out::Fuel } if eval(c, st) { return Out::Normal; } } Out::Fuel }
-        Stmt::For(a, z, b) => { let n = if z >= a { (z - a + 1) as usize } else { 0 }; for _ in 0..n { match exec_block(b, fuel, st) { Out::Normal => {}, Out::Break => return Out::Normal, Out::Fuel => return Out::Fuel } } Out::Normal }
+        Stmt::Assert(c) => { if eval(c, st) { Out::Normal } else { Out::Stop } }
+        Stmt::ReturnIf(_, c, b) => { if eval(c, st) { match exec_block(b, fuel, st) { Out::Normal => Out::Stop, o => o } } else { Out::Normal } }
+        Stmt::While(c, b) => { for _ in 0..fuel { if !eval(c, st) { return Out::Normal; } match exec_block(b, fuel, st) { Out::Normal => {}, Out::Break => return Out::Normal, o => return o } } Out::Fuel }
+        Stmt::WhileTrue(b) => { for _ in 0..fuel { match exec_block(b, fuel, st) { Out::Normal => {}, Out::Break => return Out::Normal, o => return o } } Out::Fuel }
+        Stmt::Repeat(b, c) => { for _ in 0..fuel { match exec_block(b, fuel, st) { Out::Normal => {}, Out::Break => return Out::Normal, o => return o } if eval(c, st) { return Out::Normal; } } Out::Fuel }
+        Stmt::For(a, z, b) => { let n = if z >= a { (z - a + 1) as usize } else { 0 }; for _ in 0..n { match exec_block(b, fuel, st) { Out::Normal => {}, Out::Break => return Out::Normal, o => return o } } Out::Normal }
     }
 }
 const FUEL: usize = 12;
@@ -372,7 +397,8 @@ fn count_opq_c(c: &Cond) -> usize { match c { Cond::Opq(_) => 1, Cond::Not(a) =>
 fn count_opq(b: &[Stmt]) -> usize {
     b.iter().map(|s| match s {
         Stmt::If(arms, els) => arms.iter().map(|(c, bb)| count_opq_c(c) + count_opq(bb)).sum::<usize>() + els.as_ref().map(|bb| count_opq(bb)).unwrap_or(0),
-        Stmt::While(c, bb) | Stmt::Repeat(bb, c) | Stmt::BreakIf(c, bb) => count_opq_c(c) + count_opq(bb),
+        Stmt::While(c, bb) | Stmt::Repeat(bb, c) | Stmt::BreakIf(c, bb) | Stmt::ReturnIf(_, c, bb) => count_opq_c(c) + count_opq(bb),
+        Stmt::Assert(c) => count_opq_c(c),
         Stmt::WhileTrue(bb) | Stmt::For(_, _, bb) => count_opq(bb),
         _ => 0 }).sum()
 }
@@ -380,7 +406,7 @@ fn has_loop(b: &[Stmt]) -> bool {
     b.iter().any(|s| match s {
         Stmt::If(arms, els) => arms.iter().any(|(_, bb)| has_loop(bb)) || els.as_ref().map(|bb| has_loop(bb)).unwrap_or(false),
         Stmt::While(..) | Stmt::WhileTrue(..) | Stmt::Repeat(..) | Stmt::For(..) => true,
-        Stmt::BreakIf(_, bb) => has_loop(bb),
+        Stmt::BreakIf(_, bb) | Stmt::ReturnIf(_, _, bb) => has_loop(bb),
         _ => false })
 }
 fn oracle_len(p: &Prog) -> usize { if has_loop(&p.body) { 8 } else { count_opq(&p.body).min(8) } }
@@ -406,9 +432,9 @@ fn probes_info(b: &[Stmt], in_loop: bool, out: &mut Vec<(usize, usize, bool)>) {
         match s {
             Stmt::Probe(id, x) => out.push((*id, *x, in_loop)),
             Stmt::If(arms, els) => { for (_, bb) in arms { probes_info(bb, in_loop, out); } if let Some(bb) = els { probes_info(bb, in_loop, out); } }
-            Stmt::BreakIf(_, bb) => probes_info(bb, in_loop, out),
+            Stmt::BreakIf(_, bb) | Stmt::ReturnIf(_, _, bb) => probes_info(bb, in_loop, out),
             Stmt::While(_, bb) | Stmt::WhileTrue(bb) | Stmt::Repeat(bb, _) | Stmt::For(_, _, bb) => probes_info(bb, true, out),
-            Stmt::Assign(..) => {}
+            Stmt::Assign(..) | Stmt::Assert(..) => {}
         }
     }
 }
@@ -416,17 +442,18 @@ fn assigns(b: &[Stmt], x: usize) -> bool {
     b.iter().any(|s| match s {
         Stmt::Assign(y, _) => *y == x,
         Stmt::If(arms, els) => arms.iter().any(|(_, bb)| assigns(bb, x)) || els.as_ref().map(|bb| assigns(bb, x)).unwrap_or(false),
-        Stmt::While(_, bb) | Stmt::WhileTrue(bb) | Stmt::Repeat(bb, _) | Stmt::For(_, _, bb) | Stmt::BreakIf(_, bb) => assigns(bb, x),
+        Stmt::While(_, bb) | Stmt::WhileTrue(bb) | Stmt::Repeat(bb, _) | Stmt::For(_, _, bb) | Stmt::BreakIf(_, bb) | Stmt::ReturnIf(_, _, bb) => assigns(bb, x),
         _ => false })
 }
 fn cond_tests(c: &Cond, x: usize) -> bool {
-    match c { Cond::Type(y, _) | Cond::EqNil(y) | Cond::NeNil(y) | Cond::Var(y) => *y == x, Cond::Opq(_) => false,
+    match c { Cond::Type(y, _) | Cond::EqNil(y) | Cond::NeNil(y) | Cond::Var(y) | Cond::TypeF(y, _) | Cond::EqNilF(y) | Cond::NeNilF(y) => *y == x, Cond::Opq(_) => false,
               Cond::Not(a) => cond_tests(a, x), Cond::And(a, b) | Cond::Or(a, b) => cond_tests(a, x) || cond_tests(b, x) }
 }
 fn tests(b: &[Stmt], x: usize) -> bool {
     b.iter().any(|s| match s {
         Stmt::If(arms, els) => arms.iter().any(|(c, bb)| cond_tests(c, x) || tests(bb, x)) || els.as_ref().map(|bb| tests(bb, x)).unwrap_or(false),
-        Stmt::While(c, bb) | Stmt::BreakIf(c, bb) => cond_tests(c, x) || tests(bb, x),
+        Stmt::While(c, bb) | Stmt::BreakIf(c, bb) | Stmt::ReturnIf(_, c, bb) => cond_tests(c, x) || tests(bb, x),
+        Stmt::Assert(c) => cond_tests(c, x),
         Stmt::Repeat(bb, c) => tests(bb, x) || cond_tests(c, x),
         Stmt::WhileTrue(bb) | Stmt::For(_, _, bb) => tests(bb, x),
         _ => false })
@@ -434,13 +461,14 @@ fn tests(b: &[Stmt], x: usize) -> bool {
 fn has_empty_else(b: &[Stmt]) -> bool {
     b.iter().any(|s| match s {
         Stmt::If(arms, els) => els.as_ref().map(|bb| bb.is_empty() || has_empty_else(bb)).unwrap_or(false) || arms.iter().any(|(_, bb)| has_empty_else(bb)),
-        Stmt::While(_, bb) | Stmt::WhileTrue(bb) | Stmt::Repeat(bb, _) | Stmt::For(_, _, bb) | Stmt::BreakIf(_, bb) => has_empty_else(bb),
+        Stmt::While(_, bb) | Stmt::WhileTrue(bb) | Stmt::Repeat(bb, _) | Stmt::For(_, _, bb) | Stmt::BreakIf(_, bb) | Stmt::ReturnIf(_, _, bb) => has_empty_else(bb),
         _ => false })
 }
 /// does the block contain a `break` that leaves the loop whose body it is (not one of a nested loop)
 fn own_break(b: &[Stmt]) -> bool {
     b.iter().any(|s| match s {
         Stmt::BreakIf(..) => true,
+        Stmt::ReturnIf(_, _, bb) => own_break(bb),
         Stmt::If(arms, els) => arms.iter().any(|(_, bb)| own_break(bb)) || els.as_ref().map(|bb| own_break(bb)).unwrap_or(false),
         _ => false })
 }
@@ -449,7 +477,7 @@ fn loop_shapes(b: &[Stmt], x: usize, out: &mut BTreeSet<&'static str>) {
     for s in b {
         match s {
             Stmt::If(arms, els) => { for (_, bb) in arms { loop_shapes(bb, x, out); } if let Some(bb) = els { loop_shapes(bb, x, out); } }
-            Stmt::BreakIf(_, bb) => loop_shapes(bb, x, out),
+            Stmt::BreakIf(_, bb) | Stmt::ReturnIf(_, _, bb) => loop_shapes(bb, x, out),
             Stmt::While(_, bb) => { if assigns(bb, x) { out.insert("while-cond-body-assigns-probed-var"); } loop_shapes(bb, x, out); }
             Stmt::WhileTrue(bb) => { if assigns(bb, x) && tests(bb, x) { out.insert("loop-body-tests-and-assigns-probed-var"); } loop_shapes(bb, x, out); }
             Stmt::Repeat(bb, _) => {
@@ -532,6 +560,7 @@ fn variants(b: &[Stmt]) -> Vec<Vec<Stmt>> {
             Stmt::Repeat(bb, c) => { let c2 = c.clone(); rec(bb, &move |nb| Stmt::Repeat(nb, c2.clone()), &mut out); }
             Stmt::For(a, z, bb) => { let (a, z) = (*a, *z); rec(bb, &move |nb| Stmt::For(a, z, nb), &mut out); }
             Stmt::BreakIf(c, bb) => { let c2 = c.clone(); rec(bb, &move |nb| Stmt::BreakIf(c2.clone(), nb), &mut out); }
+            Stmt::ReturnIf(e, c, bb) => { let c2 = c.clone(); let e2 = *e; rec(bb, &move |nb| Stmt::ReturnIf(e2, c2.clone(), nb), &mut out); }
             _ => {}
         }
     }
